@@ -114,6 +114,52 @@ func (d c12MixData) Process() (string, error) {
 
 type c12Mix = nodes.Struct[string, c12MixData]
 
+type c12AnyData struct {
+	I nodes.NodeOutput[int]
+	F nodes.NodeOutput[bool]
+	S nodes.NodeOutput[string]
+	X nodes.NodeOutput[float64]
+	C nodes.NodeOutput[coloring.WebColor]
+	V nodes.NodeOutput[vector3.Float64]
+	W nodes.NodeOutput[vector2.Float64]
+	B nodes.NodeOutput[geometry.AABB]
+	L nodes.NodeOutput[[]vector3.Float64]
+}
+
+func (d c12AnyData) Process() (string, error) {
+	var sb strings.Builder
+	if d.I != nil {
+		fmt.Fprintf(&sb, "I%d", d.I.Value())
+	}
+	if d.F != nil {
+		fmt.Fprintf(&sb, "F%v", d.F.Value())
+	}
+	if d.S != nil {
+		fmt.Fprintf(&sb, "S%q", d.S.Value())
+	}
+	if d.X != nil {
+		fmt.Fprintf(&sb, "X%g", d.X.Value())
+	}
+	if d.C != nil {
+		fmt.Fprintf(&sb, "C%v", d.C.Value())
+	}
+	if d.V != nil {
+		fmt.Fprintf(&sb, "V%v", d.V.Value())
+	}
+	if d.W != nil {
+		fmt.Fprintf(&sb, "W%v", d.W.Value())
+	}
+	if d.B != nil {
+		fmt.Fprintf(&sb, "B%v", d.B.Value())
+	}
+	if d.L != nil {
+		fmt.Fprintf(&sb, "L%v", d.L.Value())
+	}
+	return sb.String(), nil
+}
+
+type c12Any = nodes.Struct[string, c12AnyData]
+
 type c12TextData struct {
 	Title nodes.NodeOutput[string]
 	Parts []nodes.NodeOutput[string]
@@ -142,6 +188,7 @@ var (
 	c12SumT  = refutil.GetTypeWithPackage(new(c12Sum))
 	c12MixT  = refutil.GetTypeWithPackage(new(c12Mix))
 	c12TextT = refutil.GetTypeWithPackage(new(c12Text))
+	c12AnyT  = refutil.GetTypeWithPackage(new(c12Any))
 )
 
 func init() {
@@ -151,6 +198,7 @@ func init() {
 	refutil.RegisterType[c12Sum](f)
 	refutil.RegisterType[c12Mix](f)
 	refutil.RegisterType[c12Text](f)
+	refutil.RegisterType[c12Any](f)
 	generator.RegisterTypes(f)
 }
 
@@ -597,7 +645,7 @@ type c12Gen struct {
 }
 
 var c12ParamPool = []string{c12Float, c12Float, c12Float, c12String, c12String, c12Int, c12Bool, c12V3, c12V2, c12V3Arr, c12AABB, c12Color, c12File}
-var c12StructPool = []string{c12SumT, c12SumT, c12MixT, c12TextT, c12TextT, c12RepoTx}
+var c12StructPool = []string{c12SumT, c12SumT, c12MixT, c12TextT, c12TextT, c12RepoTx, c12AnyT}
 
 func (g *c12Gen) use(ty string) {
 	if !g.used[ty] {
@@ -687,6 +735,49 @@ func (g *c12Gen) randFloat() float64 {
 }
 
 // message body for UpdateParameter, by parameter type
+// the zero value of each parameter type, as a message
+func c12ZeroMessage(ty string) []byte {
+	switch ty {
+	case c12Float, c12Int:
+		return []byte("0")
+	case c12String:
+		return []byte(`""`)
+	case c12Bool:
+		return []byte("false")
+	case c12V3:
+		return []byte(*c12J(vector3.Float64{}))
+	case c12V2:
+		return []byte(*c12J(vector2.Float64{}))
+	case c12V3Arr:
+		return []byte("[]")
+	case c12AABB:
+		return []byte(*c12J(geometry.AABB{}))
+	case c12Color:
+		return []byte(*c12J(coloring.WebColor{}))
+	case c12File:
+		return []byte{}
+	}
+	return []byte("0")
+}
+
+// message for UpdateParameter on node id: often a boundary value — the type's zero / empty value, the node's own
+// default, or (for arrays) null — so that "set back to zero while the default is not zero" is exercised
+func (g *c12Gen) randMessageFor(id string) []byte {
+	ty := g.tyOf[id]
+	r := g.c.Rng
+	switch r.Intn(5) {
+	case 0, 1:
+		g.c.Note("value.zero")
+		return c12ZeroMessage(ty)
+	case 2:
+		if pv, ok := c12ParamView(g.inst.Node(id)); ok && pv.dflt != nil && ty != c12File {
+			g.c.Note("value.default")
+			return []byte(*pv.dflt)
+		}
+	}
+	return g.randMessage(ty)
+}
+
 func (g *c12Gen) randMessage(ty string) []byte {
 	r := g.c.Rng
 	switch ty {
@@ -755,6 +846,8 @@ func (g *c12Gen) randMetaValue(depth int) any {
 		return r.Intn(2) == 0
 	case k == 4:
 		return []any{g.randFloat(), "s", map[string]any{"b": 1.0, "a": nil}}
+	case k == 5:
+		return []any{false, 0.0, "", nil, map[string]any{}, []any{}}[r.Intn(6)]
 	default:
 		return g.randFloat()
 	}
@@ -940,7 +1033,10 @@ func (g *c12Gen) step() {
 		if !ok {
 			return
 		}
-		msg := g.randMessage(g.tyOf[id])
+		msg := g.randMessageFor(id)
+		if pv, ok := c12ParamView(g.inst.Node(id)); ok && pv.dflt != nil && string(c12ZeroMessage(g.tyOf[id])) != *pv.dflt {
+			g.c.Note("value.set-on-nonzero-default")
+		}
 		canon := ""
 		st := Guard(func() string {
 			if _, err := g.inst.UpdateParameter(id, msg); err != nil {
@@ -1006,9 +1102,101 @@ func (g *c12Gen) step() {
 	}
 }
 
+// a producer graph as an application defines it in code: every parameter has a non-zero default
+func c12CodeDefinedGraph(r interface{ Intn(int) int }) map[string]nodes.NodeOutput[artifact.Artifact] {
+	any := &c12Any{Data: c12AnyData{
+		I: &parameter.Int{Name: "count", DefaultValue: 5},
+		F: &parameter.Bool{Name: "flag", DefaultValue: true},
+		S: &parameter.String{Name: "label", Description: "a label", DefaultValue: "yee"},
+		X: &parameter.Float64{Name: "scale", DefaultValue: 1},
+		C: &parameter.Color{Name: "tint", DefaultValue: coloring.WebColor{R: 255, G: 255, B: 255, A: 255}},
+		V: &parameter.Vector3{Name: "up", DefaultValue: vector3.New(0., 1., 0.)},
+		W: &parameter.Vector2{Name: "uv", DefaultValue: vector2.New(1., 1.)},
+		B: &parameter.AABB{Name: "box", DefaultValue: geometry.NewAABB(vector3.Zero[float64](), vector3.One[float64]())},
+		L: &parameter.Vector3Array{Name: "path", DefaultValue: []vector3.Float64{vector3.New(1., 2., 3.)}},
+	}}
+	title := &parameter.String{Name: "Welp", DefaultValue: "title"}
+	nums := []nodes.NodeOutput[float64]{&parameter.Float64{Name: "a", DefaultValue: 1}, &parameter.Float64{Name: "b", DefaultValue: -2.5}}
+	if r.Intn(2) == 0 {
+		nums = append(nums, nums[0])
+	}
+	text := &c12Text{Data: c12TextData{Title: title, Parts: []nodes.NodeOutput[string]{any.Out()}, Nums: nums}}
+	return map[string]nodes.NodeOutput[artifact.Artifact]{"init.txt": text.Out()}
+}
+
+// the property itself on the implementation's comparator: entries of one array input are ordered by index,
+// across every digit-count boundary a slice index can cross, whatever the case of the prefix
+func c12NaturalOrder(c *Ctx) {
+	r := c.Rng
+	emit := func(pa, pb string, i, j uint64) {
+		a := pa + "." + strconv.FormatUint(i, 10)
+		b := pb + "." + strconv.FormatUint(j, 10)
+		c.Emit("c12.holds.natural_order", strings.Join([]string{hs(pa), hs(pb), strconv.FormatUint(i, 10), strconv.FormatUint(j, 10),
+			B(c12DependencyNameLess(a, b)), B(c12DependencyNameLess(b, a))}, " "), "true")
+		c.Emit("c12.less", hs(a)+" "+hs(b), B(c12DependencyNameLess(a, b)))
+		c.Emit("c12.less", hs(b)+" "+hs(a), B(c12DependencyNameLess(b, a)))
+	}
+	prefixes := [][2]string{{"Values", "Values"}, {"Values", "values"}, {"VALUES", "Values"}, {"Ab", "Ab"}, {"Ab", "AB"}, {"Nums", "Nums"}, {"A", "a"}}
+	const maxIdx = uint64(1)<<63 - 1
+	pow := uint64(10)
+	for d := 1; d <= 18; d++ { // pow = 10^d
+		for _, pr := range prefixes[:3] {
+			emit(pr[0], pr[1], pow-1, pow)
+			emit(pr[0], pr[1], pow-2, pow+1)
+			emit(pr[0], pr[1], pow/10, pow)
+			emit(pr[0], pr[1], pow, pow+pow/10)
+			emit(pr[0], pr[1], 2, pow)
+			emit(pr[0], pr[1], pow, 2*pow)
+		}
+		pow *= 10
+	}
+	for _, pr := range prefixes {
+		emit(pr[0], pr[1], 0, 1)
+		emit(pr[0], pr[1], 2, 10)
+		emit(pr[0], pr[1], 10, 11)
+		emit(pr[0], pr[1], 10, 100)
+		emit(pr[0], pr[1], 11, 100)
+		emit(pr[0], pr[1], 100, 101)
+		emit(pr[0], pr[1], maxIdx-1, maxIdx)
+		emit(pr[0], pr[1], 1, maxIdx)
+		emit(pr[0], pr[1], 999999999999999999, maxIdx)
+	}
+	n := 300
+	if c.Tier == "thorough" {
+		n = 20000
+	}
+	for k := 0; k < n; k++ {
+		di, dj := 1+r.Intn(19), 1+r.Intn(19)
+		rnd := func(d int) uint64 {
+			lo := uint64(1)
+			for x := 1; x < d; x++ {
+				lo *= 10
+			}
+			v := lo + uint64(r.Int63n(int64(lo)*9))%(lo*9)
+			if d == 1 {
+				v = uint64(r.Intn(10))
+			}
+			if v > maxIdx {
+				v = maxIdx
+			}
+			return v
+		}
+		i, j := rnd(di), rnd(dj)
+		if i == j {
+			continue
+		}
+		if i > j {
+			i, j = j, i
+		}
+		pr := prefixes[r.Intn(len(prefixes))]
+		emit(pr[0], pr[1], i, j)
+	}
+}
+
 func runC12(c *Ctx) {
 	t := newC12Types()
 	c12Less(c)
+	c12NaturalOrder(c)
 	c12ParamLaw(c)
 	c12RepoTypes(c, t)
 	c12RepoFiles(c, t)
@@ -1035,9 +1223,65 @@ func c12History(c *Ctx, t *c12Types, i int) {
 	if r.Intn(5) == 0 {
 		app.WebScene = &schema.WebScene{AntiAlias: true, Fog: schema.WebSceneFog{Near: 1.5, Far: 30}}
 	}
+	initDump := "-"
+	if i%4 == 1 {
+		// a graph defined in code (App.Files), with parameters whose DEFAULTS are not the zero value
+		app.Files = c12CodeDefinedGraph(r)
+		c.Note("shape.code-defined-start")
+	}
 	g := &c12Gen{c: c, t: t, app: app, inst: c12Instance(app), tyOf: map[string]string{}, used: map[string]bool{}}
+	if app.Files != nil {
+		var sa schema.App
+		g.inst.EncodeToAppSchema(&sa, &jbtf.Encoder{})
+		ids := make([]string, 0)
+		for id := range sa.Nodes {
+			ids = append(ids, id)
+		}
+		sort.Strings(ids)
+		for _, id := range ids {
+			g.ids = append(g.ids, id)
+			g.tyOf[id] = sa.Nodes[id].Type
+			g.use(sa.Nodes[id].Type)
+		}
+		initDump = c12DumpInstance(app)
+	}
 	g.big = i%3 == 0
 	n := []int{0, 1, 3, 8, 20, 40, 70}[r.Intn(7)]
+	huge := 0
+	if i%25 == 3 {
+		huge = 101 + r.Intn(30) // crosses the 9/10 and 99/100 digit boundaries
+	}
+	if c.Tier == "thorough" && i%1000 == 5 {
+		huge = 1001 + r.Intn(20)
+	}
+	if huge > 0 {
+		dst := g.create([]string{c12SumT, c12TextT}[r.Intn(2)])
+		in := t.info(g.tyOf[dst])
+		p := map[string]string{c12SumT: "Values", c12TextT: "Nums"}[g.tyOf[dst]]
+		if r.Intn(2) == 0 {
+			p = map[string]string{c12SumT: "ValuesB", c12TextT: "Nums"}[g.tyOf[dst]]
+		}
+		_ = in
+		srcs := make([]string, 13)
+		for j := range srcs {
+			srcs[j] = g.create(c12Float)
+			g.inst.UpdateParameter(srcs[j], []byte(strconv.Itoa(j+1)))
+			g.ops = append(g.ops, "V "+hs(srcs[j])+" "+hs(string(g.inst.ParameterData(srcs[j]))))
+			g.stat = append(g.stat, "ok")
+		}
+		for j := 0; j < huge; j++ {
+			g.connect(srcs[(j*j+3*j)%13], dst, p+"."+strconv.Itoa(j))
+		}
+		if t.info(g.tyOf[dst]).out == 0 {
+			g.do("P "+hs(dst)+" "+hs("huge.txt"), func() string { g.inst.SetNodeAsProducer(dst, "huge.txt"); return "ok" })
+		}
+		if huge > 1000 {
+			c.Note("shape.array>1000")
+			n = 3
+		} else {
+			c.Note("shape.array>100")
+		}
+	}
 	if i%7 == 0 {
 		// the shape the property names: one array input with 10..25 connections
 		dst := g.create([]string{c12SumT, c12TextT, c12MixT}[r.Intn(3)])
@@ -1056,7 +1300,7 @@ func c12History(c *Ctx, t *c12Types, i int) {
 			}
 			src := g.create(ty)
 			if t.info(ty).kind == 1 {
-				msg := g.randMessage(ty)
+				msg := g.randMessageFor(src)
 				g.inst.UpdateParameter(src, msg)
 				g.ops = append(g.ops, "V "+hs(src)+" "+hs(string(g.inst.ParameterData(src))))
 				g.stat = append(g.stat, "ok")
@@ -1084,8 +1328,10 @@ func c12History(c *Ctx, t *c12Types, i int) {
 		}
 	}
 	switch {
+	case maxArr > 100:
+		c.Note("maxarray.101+")
 	case maxArr >= 10:
-		c.Note("maxarray.10+")
+		c.Note("maxarray.10-100")
 	case maxArr >= 2:
 		c.Note("maxarray.2-9")
 	default:
@@ -1094,11 +1340,16 @@ func c12History(c *Ctx, t *c12Types, i int) {
 	c.Note(fmt.Sprintf("nodes.%s", bucket(len(g.ids))))
 
 	table := t.table(g.order)
-	req := c12Hdr(app) + " " + table + " " + strconv.Itoa(len(g.ops))
+	req := c12Hdr(app) + " " + table + " " + initDump + " " + strconv.Itoa(len(g.ops))
 	if len(g.ops) > 0 {
 		req += " " + strings.Join(g.ops, " ")
 	}
-	dumpOrig := c12DumpInstance(app)
+	dumpOrig := Guard(func() string { return c12DumpInstance(app) })
+	if dumpOrig == "panic" {
+		// the instance is in a state its own accessors reject (e.g. a producer or dependency without a node id)
+		c.Emit("c12.edit", req, "panic")
+		return
+	}
 	c.Emit("c12.edit", req, c12Stat(g.stat)+" "+dumpOrig)
 
 	saved := Guard(func() string { return string(app.Schema()) })
@@ -1120,8 +1371,11 @@ func c12History(c *Ctx, t *c12Types, i int) {
 		c.Emit("c12.holds.reload_ok", hs(st), "true")
 		return
 	}
-	dumpReload := c12DumpInstance(fresh)
+	dumpReload := Guard(func() string { return c12DumpInstance(fresh) })
 	c.Emit("c12.reload", req, dumpReload)
+	if dumpReload == "panic" {
+		return
+	}
 	c.Emit("c12.holds.same_graph", table+" "+dumpOrig+" "+dumpReload, "true")
 	again := Guard(func() string { return string(fresh.Schema()) })
 	c.Emit("c12.holds.bytes_identical", hs(saved)+" "+hs(again), "true")
@@ -1247,7 +1501,51 @@ func c12LawOne[T any](c *Ctx, ty string, v T) {
 	c.Emit("c12.holds.param_law", hs(ty)+" "+hs(string(j1))+" "+hs(string(j2))+" "+hs(string(body))+" "+hs(string(body2))+" "+B(same)+" "+B(q.Name == "n" && q.Description == "d"), "true")
 }
 
+// the VALUE a parameter holds before the save is the value it holds after the reload, for every combination of
+// default d and applied value v at the boundaries (zero value, the default itself, something else, nothing applied)
+func c12ValueKept[T any](c *Ctx, ty string, d, v T, apply bool) {
+	p := &parameter.Value[T]{Name: "n", Description: "d", DefaultValue: d}
+	if apply {
+		if _, err := p.ApplyMessage([]byte(*c12J(v))); err != nil {
+			return
+		}
+	}
+	before, dBefore := *c12J(p.Value()), *c12J(p.DefaultValue)
+	body, err := p.ToJSON(&jbtf.Encoder{})
+	if err != nil {
+		return
+	}
+	for _, q := range []*parameter.Value[T]{{}, {DefaultValue: d}, {DefaultValue: v}} {
+		st := "ok"
+		if err := q.FromJSON(jbtf.Decoder{}, body); err != nil {
+			st = "err"
+		}
+		c.Emit("c12.holds.param_value_kept", strings.Join([]string{hs(ty), hs(st), hs(before), hs(*c12J(q.Value())), hs(dBefore), hs(*c12J(q.DefaultValue)),
+			B(q.Name == "n" && q.Description == "d")}, " "), "true")
+	}
+}
+
+func c12ValueKeptAll[T any](c *Ctx, ty string, x, y T) {
+	var zero T
+	c12ValueKept(c, ty, x, zero, true)
+	c12ValueKept(c, ty, x, x, true)
+	c12ValueKept(c, ty, zero, x, true)
+	c12ValueKept(c, ty, x, y, true)
+	c12ValueKept(c, ty, zero, zero, true)
+	c12ValueKept(c, ty, x, y, false)
+	c12ValueKept(c, ty, zero, y, false)
+}
+
 func c12ParamLaw(c *Ctx) {
+	c12ValueKeptAll(c, "float64", 1.0, -2.5)
+	c12ValueKeptAll(c, "int", 5, -7)
+	c12ValueKeptAll(c, "string", "yee", "other")
+	c12ValueKeptAll(c, "bool", true, true)
+	c12ValueKeptAll(c, "vector3", vector3.New(0., 1., 0.), vector3.New(1., 2., 3.))
+	c12ValueKeptAll(c, "vector2", vector2.New(1., 1.), vector2.New(0., 2.))
+	c12ValueKeptAll(c, "aabb", geometry.NewAABB(vector3.Zero[float64](), vector3.One[float64]()), geometry.NewAABB(vector3.New(1., 2., 3.), vector3.New(2., 2., 2.)))
+	c12ValueKeptAll(c, "color", coloring.WebColor{R: 255, G: 255, B: 255, A: 255}, coloring.WebColor{R: 1, G: 2, B: 3, A: 4})
+	c12ValueKeptAll(c, "vector3array", []vector3.Float64{vector3.New(1., 2., 3.)}, []vector3.Float64{})
 	g := &c12Gen{c: c}
 	n := 40
 	if c.Tier == "thorough" {
@@ -1268,6 +1566,11 @@ func c12ParamLaw(c *Ctx) {
 			vs[k] = vector3.New(g.randFloat(), g.randFloat(), g.randFloat())
 		}
 		c12LawOne(c, "vector3array", vs)
+		if i%8 == 0 {
+			c12ValueKeptAll(c, "float64", g.randFloat(), g.randFloat())
+			c12ValueKeptAll(c, "string", g.randString(), g.randString())
+			c12ValueKeptAll(c, "int", r.Intn(100)-50, r.Intn(100)-50)
+		}
 	}
 	c12LawOne[[]vector3.Float64](c, "vector3array", nil)
 }
